@@ -34,7 +34,7 @@ def gen_case(rng, tier):
     cols = rng.choice([3, 6])
     dsets = []
     for i in range(n):
-        opts = kgen.Opts(p_part=rng.choice([0.6, 0.9]), id_pool=2, fancy_ids=False, ts_style='small', max_rows=5,
+        opts = kgen.Opts(unordered_pairs=0.3, p_part=rng.choice([0.6, 0.9]), id_pool=2, fancy_ids=False, ts_style='small', max_rows=5,
                          image_pool=4, partial_poses=False, dtypes=['float32'],
                          cols=(rng.choice([3, 6]) if mixed else cols),
                          force_parts={'records_camera', 'keypoints'},
